@@ -752,9 +752,19 @@ class _Unjellier:
             self.references[refid] = o
         elif isinstance(ref, NotKnown):
             ref.resolveDependants(o)
+            if isinstance(o, NotKnown):
+                # o is itself still incomplete (a tuple or set inside a
+                # cycle): whoever was waiting for this reference now waits
+                # for o.
+                for mut, key in ref.dependants:
+                    o.addDependant(mut, key)
             self.references[refid] = o
         else:
             assert 0, "Multiple references with same ID!"
+        if isinstance(o, NotKnown):
+            # Keep the table current, so that a later dereference gets the
+            # finished object rather than the stale placeholder.
+            o.addDependant(self.references, refid)
         return o
 
     def _unjelly_tuple(self, lst):
@@ -847,7 +857,12 @@ class _Unjellier:
         if not self.taster.isModuleAllowed(modName):
             raise InsecureJelly("Module not allowed: %s" % modName)
         # XXX do I need an isFunctionAllowed?
-        function = namedAny(fname)
+        # Look the name up inside the allowed module (or a class in it) only:
+        # namedAny(fname) would first try to import fname itself, which
+        # imports a submodule the policy does not allow.
+        function = getattr(namedAny(modName), modSplit[-1])
+        if not isinstance(function, (types.FunctionType, types.BuiltinFunctionType)):
+            raise InsecureJelly("%s is not a function" % (fname,))
         return function
 
     def _unjelly_persistent(self, rest):
@@ -876,6 +891,10 @@ class _Unjellier:
         )
 
         clz = self.unjelly(rest[0])
+        if not isinstance(clz, type):
+            raise InsecureJelly("Instance found with non-class class.")
+        if not self.taster.isClassAllowed(clz):
+            raise InsecureJelly("Class %s not allowed." % (qual(clz),))
         return self._genericUnjelly(clz, rest[1])
 
     def _unjelly_unpersistable(self, rest):
@@ -893,6 +912,11 @@ class _Unjellier:
         if im_name in im_class.__dict__:
             if im_self is None:
                 im = getattr(im_class, im_name)
+                if not isinstance(
+                    im,
+                    (types.FunctionType, types.MethodType, types.BuiltinFunctionType),
+                ):
+                    raise InsecureJelly("Method found with non-function function.")
             elif isinstance(im_self, NotKnown):
                 im = _InstanceMethod(im_name, im_self, im_class)
             else:
